@@ -122,6 +122,14 @@ pub struct Outcome {
 }
 
 pub trait Prop: Sync {
+    /// share of the seeded runs that is repeated by the *unoptimised build* of the simulator
+    /// (sml-rs compiled as `cargo test` compiles it: no inlining, no tail calls, debug
+    /// assertions) on a worker stack of ordinary size; 0 = not run.  Used by the totality
+    /// properties, where "does not abort" depends on how deep the code recurses.
+    fn unoptimised_share(&self, _tier: Tier) -> f64 {
+        0.0
+    }
+
     fn id(&self) -> &'static str;
     /// seed-independent directed schedule corpus
     fn directed(&self, _tier: Tier) -> Vec<Scenario> {
